@@ -869,7 +869,8 @@ def run_check(prop, tier, seed, replay_path=None):
             log("VIOLATION property=%s replay=%s" % (prop, path))
             continue
         plan, sig = v["plan"], v["sig"]
-        rep_ok, _ = ps.fails_same(plan, sig, LONG_TIMEOUT_S if sig == "noresult" else SIM_TIMEOUT_S)
+        # (the long budget was already spent on this plan when it was found; the report re-runs it with the ordinary one)
+        rep_ok, _ = ps.fails_same(plan, sig)
         minimal, used = ps.minimise(plan, sig, budget=12 if sig == "noresult" else 150) if rep_ok else (plan, 0)
         fin_ok, fin_out = ps.fails_same(minimal, sig)
         detail = None
